@@ -198,8 +198,13 @@ def single_ops(chk):
     mult = [0, 17, 101]
     for e in r.emits():
         f = e['fam']
-        states = np.array([[(v + mult[f - 1] * k) % 256 for k in range(1, 17)] for v in range(256)], dtype='uint8')
-        keys = np.array([[(3 * v + 29 * k + 7) % 256 for k in range(1, 17)] for v in range(256)], dtype='uint8')
+        if f == 4:         # bytes below 128, carried by signed 8-bit, 16-bit and unsigned arrays in turn: a round operation is a function of the byte values
+            sdt = ['int8', 'int16', 'uint8', 'int8', 'int64', 'int8', 'int8'][['sb', 'isb', 'sr', 'isr', 'mc', 'imc', 'ark'].index(e['op'])]
+            states = np.array([[(v + 5 * k) % 128 for k in range(1, 17)] for v in range(256)], dtype=sdt)
+            keys = np.array([[(3 * v + 29 * k + 7) % 128 for k in range(1, 17)] for v in range(256)], dtype=sdt)
+        else:
+            states = np.array([[(v + mult[f - 1] * k) % 256 for k in range(1, 17)] for v in range(256)], dtype='uint8')
+            keys = np.array([[(3 * v + 29 * k + 7) % 256 for k in range(1, 17)] for v in range(256)], dtype='uint8')
         want = np.array(e['out'], dtype='uint8')
         s0 = states.copy()
         if e['op'] == 'ark':
@@ -210,11 +215,11 @@ def single_ops(chk):
             got1 = np.array([fn[e['op']](states[i]) for i in range(0, 256, 37)])
         chk.evaluations += 256
         chk.nontrivial_count += 256
-        ok = np.array_equal(got, want) and np.array_equal(got1, want[::37]) and np.array_equal(states, s0)
+        ok = np.array_equal(np.asarray(got).astype('int64') % 256, want) and np.array_equal(np.asarray(got1).astype('int64') % 256, want[::37]) and np.array_equal(states, s0) and not np.any(np.asarray(got).astype('int64') < 0)
         if e['op'] in ('mc', 'imc'):     # the single-column helpers
             colfn = scared.aes.mix_column if e['op'] == 'mc' else scared.aes.inv_mix_column
             cols = colfn(states[:, 4:8])
-            ok = ok and np.array_equal(cols, want[:, 4:8])
+            ok = ok and np.array_equal(np.asarray(cols).astype('int64'), want[:, 4:8].astype('int64'))
         if not ok:
             bad = int(np.nonzero(np.any(got != want, axis=1))[0][0]) if got.shape == want.shape and np.any(got != want) else -1
             chk.violation(f'{e["op"]}:round operation equals its FIPS definition on every state', {'property': 'C05', 'part': 'op', 'op': e['op'], 'family': f, 'state': states[bad].tolist() if bad >= 0 else None,
